@@ -130,6 +130,9 @@ func runTrace(env *core.Env, t Trace, verbose bool) bool {
 		case "alt_differs": // main branch and alternative branch end differently (exit code of the last step or observable state)
 			last := snaps[len(t.Steps)]
 			ok = last.res.Exit != altLast.Exit || last.obs.Norm(nil) != altObs.Norm(nil)
+		case "has_waits_for_cycle": // the effective waits-for relation observed after the step contains a cycle
+			rel, _ := waitsFor(s.obs)
+			ok = s.obs.Fail == "" && findCycle(rel) != nil
 		case "show_differs":
 			ok = s.obs.RawShow[a.Text] != o.obs.RawShow[a.Text]
 		case "read_fails":
